@@ -650,7 +650,12 @@ func shippedNativeFuzz(c *drv.Ctx, l *lab.Lab, sh []shipped, d time.Duration) {
 	cs := shippedCase{Grammar: sh[gi].Dir, Input: proto.QStr(res.Args[1])}
 	what := judgeShipped(runShippedInputs(c, l, []shippedCase{cs})[0])
 	if what == "" {
-		what = "found by go test -fuzz (does not reproduce through the worker): " + tail(res.Output, 600)
+		// only what the deterministic path reproduces is a violation: the fuzzing engine also
+		// stops when one execution takes long ("fuzzing process hung or terminated
+		// unexpectedly"), and elapsed time is never a correctness signal
+		c.Stats.Class("native_fuzz_stopped_without_reproducible_failure")
+		c.Notes = append(c.Notes, fmt.Sprintf("native fuzzing stopped on grammars/%s, input %q, which the worker does not reproduce (treated as a slow execution): %s", cs.Grammar, string(cs.Input), firstLine(tail(res.Output, 300))))
+		return
 	}
 	c.AddViolation(drv.Violation{Property: c.ID, Kind: "shipped-input", What: fmt.Sprintf("grammars/%s on input %q: %s", cs.Grammar, string(cs.Input), what), Case: cs})
 }
